@@ -42,3 +42,102 @@ Proof.
   change (width g) with (find_width (max_shape g) (rect h)).
   apply find_width_rect_covers; assumption.
 Qed.
+
+(* ---------------------------------------------------------------- rows sum to one inside the volume (axis-aligned, rectangle) *)
+Lemma qpos_iff q : qpos q = true <-> 0 < q.
+Proof.
+  unfold qpos. rewrite Bool.negb_true_iff. split.
+  - intros H. apply Qnot_le_lt. intros L. apply Qle_bool_iff in L. congruence.
+  - intros H. apply Bool.not_true_iff_false. intros L. apply Qle_bool_iff in L. lra.
+Qed.
+
+Lemma count_pos_of_In {A} (f : A -> bool) l a : In a l -> f a = true -> (0 < count f l)%Z.
+Proof.
+  intros Hin Hf. unfold count.
+  assert (H : In a (filter f l)) by (apply filter_In; split; assumption).
+  destruct (filter f l); [destruct H|cbn [length]; lia].
+Qed.
+
+Lemma qsum_ge_member {A} (f : A -> Q) l a : (forall b, In b l -> 0 <= f b) -> In a l -> f a <= qsum (map f l).
+Proof.
+  induction l as [|b l IH]; intros Hnn Hin; [destruct Hin|]. cbn [map qsum].
+  assert (Hb : 0 <= f b) by (apply Hnn; left; reflexivity).
+  assert (Hr : 0 <= qsum (map f l)) by (apply qsum_nonneg; intros; apply Hnn; right; assumption).
+  destruct Hin as [->|Hin]; [lra|]. pose proof (IH (fun c Hc => Hnn c (or_intror Hc)) Hin). lra.
+Qed.
+
+(* a voxel from its components along a0, a1, a2 *)
+Definition build (a0 a1 a2 : ax) (v0 v1 v2 : Z) : pt3 :=
+  let sel i := if ax_eqb a0 i then v0 else if ax_eqb a1 i then v1 else v2 in (sel AZ, sel AY, sel AX).
+
+Lemma comp_build a0 a1 a2 v0 v1 v2 : is_perm a0 a1 a2 ->
+  comp a0 (build a0 a1 a2 v0 v1 v2) = v0 /\ comp a1 (build a0 a1 a2 v0 v1 v2) = v1 /\ comp a2 (build a0 a1 a2 v0 v1 v2) = v2.
+Proof. intros Hp. perm_cases a0 a1 a2 Hp; cbn; repeat split; reflexivity. Qed.
+
+Lemma nearest_int (a : Q) : Qabs (a - inject_Z (Qfloor (a + (1 # 2)))) <= 1 # 2.
+Proof.
+  pose proof (Qfloor_le (a + (1 # 2))) as F1. pose proof (Qlt_floor (a + (1 # 2))) as F2.
+  rewrite inject_Z_plus in F2. change (inject_Z 1) with 1 in F2.
+  apply Qabs_Qle_condition. split; lra.
+Qed.
+
+(* THEOREM: axis-permuting rotation, rectangular profile 1/2 <= h <= width, all voxels of the pixel's line within distance h
+   inside the volume  ==>  the row sums to s/(s+1e-6) with s >= 1, i.e. to one within 1e-6 (a constant volume gives the constant) *)
+Theorem rect_sperm_row_sums_to_one g r c a0 a1 a2 b0 b1 b2 h :
+  is_perm a0 a1 a2 -> rot g = sperm_mat a0 a1 a2 b0 b1 b2 -> prof g = rect h -> (1 # 2) <= h -> h <= inject_Z (width g) ->
+  Z.even (ny g) = Z.even (comp a1 (dimv g)) -> Z.even (nx g) = Z.even (comp a2 (dimv g)) ->
+  (forall pt, comp a1 pt = lat_y g a1 b1 r -> comp a2 pt = lat_x g a2 b2 c ->
+              Qabs (line_n g a0 b0 - inject_Z (comp a0 pt)) <= h -> inside g pt = true) ->
+  1 - eps <= row_sum g r c <= 1.
+Proof.
+  intros Hp Hrot Hprof Hh Hhw Py Px Hins.
+  assert (Hw : (0 <= width g)%Z).
+  { assert (L : inject_Z 0 <= inject_Z (width g)) by (change (inject_Z 0) with 0; lra). rewrite <- Zle_Qle in L. exact L. }
+  assert (Hprop : Proper (Qeq ==> Qeq) (prof g)) by (rewrite Hprof; apply rect_comp).
+  assert (Hnn : forall d, 0 <= prof g d) by (intros d; rewrite Hprof; apply rect_nonneg).
+  set (pr := pixel_rot g r c).
+  destruct (pixel_rot_sperm g r c a0 a1 a2 b0 b1 b2 Hp Hrot) as [E0 [E1 E2]]. fold pr in E0, E1, E2.
+  rewrite (lattice_coord_spec b1 _ _ _ Py) in E1. rewrite (lattice_coord_spec b2 _ _ _ Px) in E2.
+  fold (lat_y g a1 b1 r) in E1. fold (lat_x g a2 b2 c) in E2. fold (line_n g a0 b0) in E0.
+  assert (Wt : forall pt, weight g pr pt == if ((comp a1 pt =? lat_y g a1 b1 r) && (comp a2 pt =? lat_x g a2 b2 c))%Z
+                                          then rect h (sgn b0 * (comp a0 pr - inject_Z (comp a0 pt))) else 0).
+  { intros pt. rewrite (weight_sperm g a0 a1 a2 b0 b1 b2 pr pt _ _ Hp Hrot Hprop E1 E2). rewrite Hprof. reflexivity. }
+  (* every candidate with positive weight lies on the line within distance h, hence inside *)
+  assert (Hall : all_in_view g pr).
+  { intros pt _ Hpos. apply qpos_iff in Hpos. rewrite Wt in Hpos.
+    destruct (Z.eqb_spec (comp a1 pt) (lat_y g a1 b1 r)) as [P1|]; [|cbn [andb] in Hpos; lra].
+    destruct (Z.eqb_spec (comp a2 pt) (lat_x g a2 b2 c)) as [P2|]; [|cbn [andb] in Hpos; lra].
+    cbn [andb] in Hpos. unfold rect in Hpos.
+    destruct (Qle_bool (Qabs (sgn b0 * (comp a0 pr - inject_Z (comp a0 pt)))) h) eqn:B; [|lra].
+    apply Qle_bool_iff in B. rewrite Qabs_sgn_mult, E0 in B. apply Hins; assumption. }
+  (* the voxel of the line nearest to the slice position *)
+  set (zs := Qfloor (line_n g a0 b0 + (1 # 2))).
+  set (ps := build a0 a1 a2 zs (lat_y g a1 b1 r) (lat_x g a2 b2 c)).
+  destruct (comp_build a0 a1 a2 zs (lat_y g a1 b1 r) (lat_x g a2 b2 c) Hp) as [B0 [B1 B2]]. fold ps in B0, B1, B2.
+  assert (Dn : Qabs (line_n g a0 b0 - inject_Z (comp a0 ps)) <= 1 # 2) by (rewrite B0; apply nearest_int).
+  assert (Dh : Qabs (line_n g a0 b0 - inject_Z (comp a0 ps)) <= h) by lra.
+  assert (Ips : inside g ps = true) by (apply Hins; assumption).
+  assert (Wps : weight g pr ps == 1).
+  { rewrite Wt, B1, B2, !Z.eqb_refl. cbn [andb]. unfold rect.
+    assert (B : Qle_bool (Qabs (sgn b0 * (comp a0 pr - inject_Z (comp a0 ps)))) h = true).
+    { apply Qle_bool_iff. rewrite Qabs_sgn_mult, E0. exact Dh. }
+    rewrite B. reflexivity. }
+  assert (Cps : In ps (cands g pr)).
+  { apply (cands_sperm_line g a0 a1 a2 b0 b1 b2 pr _ _ ps Hp Hrot Hw E1 E2 B1 B2).
+    apply (support_in_window _ h); [exact Hhw|]. rewrite E0. exact Dh. }
+  assert (Hnpos : (0 < npos g r c)%Z).
+  { unfold npos. fold pr. apply (count_pos_of_In _ _ ps Cps). apply qpos_iff. rewrite Wps. reflexivity. }
+  assert (Hs : 1 <= raw_sum g pr).
+  { assert (Hd : In ps (dedup (filter (inside g) (cands g pr)))).
+    { apply dedup_In. apply filter_In. split; assumption. }
+    unfold raw_sum.
+    assert (Hco : exists e, In e (coalesced g pr) /\ fst e = ps).
+    { unfold coalesced. eexists (ps, _). split; [|reflexivity]. apply in_map_iff. exists ps. split; [reflexivity|exact Hd]. }
+    destruct Hco as [e [He Hfe]].
+    assert (Hge : snd e <= qsum (map snd (coalesced g pr))).
+    { apply qsum_ge_member; [|exact He]. intros b Hb. destruct (coalesced_spec g pr b Hb) as [Eb _]. rewrite Eb.
+      apply weight_nonneg. exact Hnn. }
+    destruct (coalesced_spec g pr e He) as [Ee _]. rewrite Hfe, Wps in Ee. rewrite Ee in Hge. exact Hge. }
+  destruct (row_sum_inside g r c Hnn Hall Hnpos) as [_ [Hle Hge]]. fold pr in Hge.
+  split; [apply Hge; exact Hs|exact Hle].
+Qed.
